@@ -82,6 +82,7 @@ func buildArena(sc *bw.Scenario) error {
 		}
 	}
 	os.WriteFile("/w/victim", []byte("OUT-victim"), 0o644)
+	os.WriteFile("/w/outside-rules", []byte(".terraformignore\nh-*\n"), 0o644)
 	os.WriteFile("/w/SIBLING/main.tf", []byte("OUT-sibling"), 0o644)
 	os.WriteFile("/etc/shadow", []byte("OUT-shadow"), 0o644)
 	os.WriteFile("/cwd/keep", []byte("OUT-cwd"), 0o644)
